@@ -146,7 +146,7 @@ func RunBridge(t *testing.T, sc BScenario) (h *BHistory) {
 				}()
 				tok := Token{K: p.K, Inv: inv}
 				switch method {
-				case "ret", "svc.ret":
+				case "ret", "svc.ret", "rpcret":
 					return tok, nil
 				case "err":
 					ret = fmt.Sprintf("err:%d", p.C)
